@@ -174,7 +174,7 @@ func init() {
 		"errors.Is":   mErrorsIs,
 		"errors.As":   mErrorsAs,
 		"fmt.Errorf":  mErrorf,
-		"fmt.Sprintf": func(e *Engine, a []Value) Value { return Str{S: mFormat(e, a)} },
+		"fmt.Sprintf": func(e *Engine, a []Value) Value { return mFormat(e, a) },
 		"fmt.Sprint": func(e *Engine, a []Value) Value {
 			// operands: concrete values are formatted natively; a symbolic string operand is spliced in
 			out := Str{}
@@ -733,7 +733,7 @@ func (e *Engine) toNative(v Value) (interface{}, bool) {
 	return nil, false
 }
 
-func mFormat(e *Engine, a []Value) string {
+func mFormat(e *Engine, a []Value) Str {
 	f := a[0].(Str).S
 	var native []interface{}
 	allOK := true
@@ -755,9 +755,17 @@ func mFormat(e *Engine, a []Value) string {
 		}
 	}
 	if allOK {
-		return fmt.Sprintf(f, native...)
+		return Str{S: fmt.Sprintf(f, native...)}
 	}
-	return f + " :: " + strings.Join(parts, ",")
+	// symbolic operands: build the text symbolically where the format is plain
+	if len(a) > 1 {
+		s := a[1].(Slice)
+		if r, ok := e.fmtSymFormat(f, (*s.A)[s.Off:s.Off+s.Len]); ok {
+			return r
+		}
+	}
+	e.imprecise("fmt: "+f)
+	return Str{S: f + " :: " + strings.Join(parts, ",")}
 }
 
 var errorStringType types.Type
@@ -852,7 +860,7 @@ func mErrorf(e *Engine, a []Value) Value {
 					wrapErrorType = types.NewPointer(e.prog.ImportedPackage("fmt").Type("wrapError").Type())
 				}
 				cell := new(Value)
-				*cell = Struct{Str{S: msg}, inner}
+				*cell = Struct{msg, inner}
 				return Iface{T: wrapErrorType, V: cell}
 			}
 		}
@@ -862,7 +870,7 @@ func mErrorf(e *Engine, a []Value) Value {
 		errorStringType = types.NewPointer(ep.Type("errorString").Type())
 	}
 	cell := new(Value)
-	*cell = Struct{Str{S: msg}}
+	*cell = Struct{msg}
 	return Iface{T: errorStringType, V: cell}
 }
 
